@@ -126,8 +126,10 @@ def quantizer_strings(m):
 def main():
   rep = vlib.Report(PROP, "translation_validation")
   gen = qmeta.emit(vlib.GEN)
-  info = vlib.build_obligations(PROP, gen_files=[gen])
-  errs = rep.obligations(info, "python3 tools/translate/qmeta.py coq/gen && coqc coq/gen/QMeta.v && coqc coq/theories/Properties/C13.v")
+  from translate import layermeta
+  lgen = layermeta.emit(vlib.GEN)
+  info = vlib.build_obligations(PROP, gen_files=[gen, lgen])
+  errs = rep.obligations(info, "python3 tools/translate/qmeta.py coq/gen && python3 tools/translate/layermeta.py coq/gen && coqc coq/gen/QMeta.v coq/gen/LayerMeta.v && coqc coq/theories/Properties/C13.v")
   for e in errs:
     rep.violation("obligation-" + os.path.basename(e["file"]), "proof obligation no longer checks: " + e["error"][-600:],
                   {"file": e["file"]}, no_input=True)
